@@ -72,7 +72,7 @@ func Run(cfg hx.Config) (*hx.Meta, error) {
 	}
 
 	// 2. generated packages with a plan: outcomes x flags x renamings x formatting
-	n := 14
+	n := 21
 	if cfg.Tier == "thorough" {
 		n = 150
 	}
